@@ -38,6 +38,7 @@ func (m *MLDv1Message) DecodeFromBytes(data []byte, df gopacket.DecodeFeedback) 
 	m.MaximumResponseDelay = time.Duration(binary.BigEndian.Uint16(data[0:2])) * time.Millisecond
 	// data[2:4] is reserved and not used in mldv1
 	m.MulticastAddress = data[4:20]
+	m.BaseLayer = BaseLayer{Contents: data[:20], Payload: data[20:]}
 
 	return nil
 }
